@@ -155,7 +155,8 @@ def oracle_c16(cases, results):
                     site = f"message:unreachable({mm.group(1)})"
                 elif "not yet implemented" in msg:
                     site = "message:todo"
-            fails.append({"source": src.get(i, ""), "what": "derive panicked: " + msg[:120], "site": site, "detail": {"model": m[:200]}})
+            fails.append({"source": src.get(i, ""), "what": "derive panicked: " + msg[:120], "site": site, "detail": {"model": m[:200]},
+                          "flags": sorted(res.get("flags", {}).get(i, ()))})
     return fails
 
 
@@ -1694,6 +1695,10 @@ def classify_failure(prop, f, known):
         # a panic-site class may be narrowed to the zone of inputs the finding describes: the same site reached from outside
         # that zone (e.g. because a validation rule stopped firing) is a new violation
         zone_ok = ("source_regex" not in cls) or re.search(cls["source_regex"], f.get("source", "")) is not None
+        # .. or to the inputs on which the model evaluates a flag (`COLLISION`: the hypothesis whose negation the theorem
+        # C16_derive_panics_only_at_todo_without_collision needs for this site to be reachable at all)
+        if "model_flag" in cls and cls["model_flag"] not in f.get("flags", ()):
+            zone_ok = False
         if "panic_site" in cls and f.get("site") == cls["panic_site"] and zone_ok:
             return k
         if "panic_site" in cls and str(f.get("site", "")).startswith("message:") and zone_ok:
